@@ -27,7 +27,7 @@ RULE = ("statements are enumerated as kind x (expression form per slot); all one
         "(declared reads, declared writes, union of dynamic reads, union of dynamic writes)")
 ASSUMPTIONS = ["loop counters are exempt (as the property states)",
                "function symbols called (not passed as values) are not variables"]
-LEVEL_TEXT = ("The statement space (all kinds, every slot, 11 expression forms incl. subscripts, calls with keywords, "
+LEVEL_TEXT = ("The statement space (all kinds, every slot, 12 expression forms incl. subscripts, calls with keywords, "
               "conditional expressions, short-circuit logic) is covered completely three slots at a time (quick) / four slots "
               "at a time (thorough), each in every single-variable-flipped state, on the real exec_* methods.")
 LEVEL_NOTE = "Trusted: the recording dict subclass (30 lines). AssignImplicit is not executable and is left out."
@@ -74,7 +74,7 @@ class RecDict(dict):
         super().update(*a, **k)
 
 
-N_FORMS = 11
+N_FORMS = 12
 
 
 def form(f, p):
@@ -105,6 +105,8 @@ def form(f, p):
         return P.Call(fn, (P.Call(fn, (v[0],)),)), [v[0].name], []
     if f == 10:
         return P.Subscript(v[0], (P.Sum((v[1], v[2])),)), [v[1].name, v[2].name], [v[0].name]
+    if f == 11:
+        return P.Sum((P.Lookup(v[0], "real"), P.Lookup(v[1], "imag"))), [v[0].name, v[1].name], []
     raise ValueError(f)
 
 
@@ -233,6 +235,9 @@ def execute(stmt, state):
     rec = RecDict()
     for k, v in state.items():
         dict.__setitem__(rec, k, np.array([1, 1, 1, 1, 1, 1]) if v is None else v)
+    # live variables that share the names of the called functions: calling a function must not read them
+    dict.__setitem__(rec, "<func>f", f_f)
+    dict.__setitem__(rec, "<func>g", f_g)
     it.context = rec
     it.eval_mapper.context = rec
     err = None
